@@ -1304,6 +1304,13 @@ impl ProtocolState {
     fn start_operation_ack_timeout(&mut self, id: u64, now: Instant) {
         let mut timeout_duration_option : Option<Duration> = None;
         if let Some(operation) = self.operations.get(&id) {
+            // QoS 0 publishes have no ack; they complete on write completion and must never ack-timeout
+            if let MqttPacket::Publish(publish) = &*operation.packet {
+                if publish.qos == QualityOfService::AtMostOnce {
+                    return;
+                }
+            }
+
             timeout_duration_option = self.get_operation_timeout_duration(operation);
         }
 
